@@ -11,12 +11,12 @@ RECURSIVE IsSubseq(_, _)
 IsSubseq(a, b) == IF a = <<>> THEN TRUE ELSE IF b = <<>> THEN FALSE
                   ELSE IF Head(a) = Head(b) THEN IsSubseq(Tail(a), Tail(b)) ELSE IsSubseq(a, Tail(b))
 VerdictPatch(r) ==
-  LET RB == Aux.rbs[r.rb] ord == Aux.ords[r.ord] IN
+  LET RB == Aux.rbs[r.rb] ord == InScope(Aux.ords[r.ord], "patch") IN
   IF BagI(r.pt) # BagI(r.upt) THEN "sorting-lost-or-duplicated-commands"
   ELSE IF ~RemovalFirst(RB, r.pt, RB.rules, <<>>) THEN "re-creation-before-removal"
   ELSE RankOrdered(RB.prefix, r.pt, ord)
 VerdictConfig(r) ==
-  LET RB == Aux.rbs[r.rb] ord == Aux.ords[r.ord] IN
+  LET RB == Aux.rbs[r.rb] ord == InScope(Aux.ords[r.ord], "") IN
   IF BagI(AsItems(r.out)) # BagI(AsItems(r.t)) THEN "order-config-not-a-permutation"
   ELSE IF r.out2 # r.out THEN "order-config-not-idempotent"
   ELSE IF ~UnrankedStable(RB.prefix, r.t, r.out, ord) THEN "unmentioned-rows-reordered"
